@@ -19,7 +19,9 @@ RULE = (
     'action (on / off / set / wait) whose simulated device charges a '
     'generated amount of work time (none, shorter than, equal to, longer '
     'than the delay); tick length 1/16 .. 2 s; schedules = generated '
-    'preemptions of the clock thread against the script thread. From the '
+    'preemptions of the clock thread against the script thread, and in a '
+    'third of the cases 1..3 clock ticks that come 0.125 .. 3 s late (a '
+    'loaded host; the bound below is widened by exactly that much). From the '
     'recorded history: with S the instant Machine.run reset the clock (or '
     'the instant a time-of-day wait ended) and D_k = S + d_1 + .. + d_k, the '
     'k-th delay is requested with exactly d_k seconds, never ends before '
@@ -78,7 +80,13 @@ def scenarios(draw):
             plan.append(('delay', current))
         if action != 'wait':
             plan.append(('cmd',))
-    return {'population': POP, 'tick': tick,
+    late_ticks = {}
+    if draw(st.integers(0, 2)) == 0:
+        # the host holds the clock thread up now and then
+        for _ in range(draw(st.integers(1, 3))):
+            late_ticks[str(draw(st.integers(1, 40)))] = draw(
+                st.sampled_from([0.125, 0.5, 1.0, 3.0]))
+    return {'population': POP, 'tick': tick, 'late_ticks': late_ticks,
             'work': {'set_power': work, 'set_color': work},
             'start': start, 'scripts': {'s': '\n'.join(lines)},
             'plan': plan, 'clients': [[['add', 's'], ['wait_idle', 600]]]}
@@ -103,6 +111,7 @@ def analyse(scenario, result, preempted):
         return [(result.outcome, '{}: {}'.format(
             result.outcome, result.sched.detail))], [], False
     tick = scenario['tick']
+    overrun = sum(scenario.get('late_ticks', {}).values())
     start = next((e for e in log if e[3] == 'job-start'), None)
     if start is None:
         return [('not-started', 'the job never started')], [], False
@@ -110,7 +119,7 @@ def analyse(scenario, result, preempted):
     mine = [e for e in log if e[2] == thread]
     ticks = sorted({e[0] for e in log if e[3] == 'tick'})
     problems = []
-    labels = []
+    labels = ['late-ticks'] if overrun else []
     plan = list(scenario['plan'])
     base = None
     total = 0.0
@@ -156,12 +165,13 @@ def analyse(scenario, result, preempted):
                     problems.append(('early',
                                      'delay #{} ended at {} before its due '
                                      'time {}'.format(index, ended, due)))
-                limit = due + (2 if preempted else 1) * tick + 1e-9
+                limit = due + (2 if preempted or overrun else 1) * tick + \
+                    overrun + 1e-9
                 if ended > limit:
                     problems.append(('late',
                                      'delay #{} due at {} ended at {} (tick '
                                      '{})'.format(index, due, ended, tick)))
-                elif ended > due + 1e-9 and not any(
+                elif ended > due + 1e-9 and not overrun and not any(
                         abs(ended - t) < 1e-9 for t in ticks):
                     problems.append(('not-at-a-tick',
                                      'delay #{} ended at {} which is not a '
@@ -201,7 +211,7 @@ def analyse(scenario, result, preempted):
                 problems.append(('time-of-day-wrong-minute',
                                  'time at {} ended at wall time +{} s, which '
                                  'does not match'.format(pattern, ended)))
-            elif ended > first + 2 * tick + 1e-9:
+            elif ended > first + 2 * tick + overrun + 1e-9:
                 problems.append(('time-of-day-late',
                                  'time at {} first matched at +{} s but the '
                                  'wait ended at +{} s'.format(
@@ -239,19 +249,23 @@ def check(acc, scenario, schedule, label='random'):
         schedule['choices'])
     problems, labels, nontrivial = analyse(scenario, result, preempted)
     acc.case(key=repr((scenario['scripts'], scenario['tick'],
-                       scenario['work'], scenario['start'], schedule)),
+                       scenario['work'], scenario['start'],
+                       scenario.get('late_ticks'), schedule)),
              nontrivial=nontrivial,
              labels=[label, 'raw' if scenario['scripts']['s'].startswith(
                  'units raw') else 'logical'] + labels,
              sample={'script': scenario['scripts']['s'],
                      'tick': scenario['tick'], 'work': scenario['work'],
-                     'start': scenario['start'], 'schedule': schedule}
+                     'start': scenario['start'],
+                     'late_ticks': scenario.get('late_ticks'),
+                     'schedule': schedule}
              if nontrivial and len(acc.samples) < 3 else None)
     for sig, what in problems[:1]:
         acc.fail(sig, '{}\n--- script ---\n{}\ntick {} work {} start {} '
-                 'schedule {}'.format(what, scenario['scripts']['s'],
-                                      scenario['tick'], scenario['work'],
-                                      scenario['start'], schedule),
+                 'late ticks {} schedule {}'.format(
+                     what, scenario['scripts']['s'], scenario['tick'],
+                     scenario['work'], scenario['start'],
+                     scenario.get('late_ticks'), schedule),
                  {'kind': 'schedule', 'scenario': scenario,
                   'schedule': schedule})
 
